@@ -45,10 +45,14 @@ def outside(g, P, tol):
     return g < P * (1 - tol) or g > P * (1 + tol)
 
 
+EPOCH_NS = 1700000000000000000      # time-stamps of this magnitude are exact as Python ints and 256 ns apart as floats
+
+
 class JitterModel(object):
-    def __init__(self, cfg, tol):
+    def __init__(self, cfg, tol, base=0):
         self.cfg = cfg
         self.tol = tol
+        self.base = base      # 0: float time-stamps from 0; otherwise integer time-stamps starting at base
         self.P = period_in_default(cfg)
         self.events = gaps(self.P, tol)
         self.f = ('once', (0, 1), F.X)
@@ -61,6 +65,13 @@ class JitterModel(object):
 
     def value(self, i):
         return F.V3[i % 3]
+
+    def stamp(self, offset):
+        """time-stamp handed to the monitor for the exact offset (a Fraction) from the start of the segment"""
+        if self.base:
+            assert offset.denominator == 1
+            return self.base + int(offset)
+        return float(offset)
 
     @staticmethod
     def segment(hist):
@@ -75,7 +86,7 @@ class JitterModel(object):
             out = impl.outcome(obj.reset)
             return (out, impl.outcome(lambda: obj.sampling_violation_counter))
         seg = self.segment(hist)
-        t = float(sum(seg, Fr(0)) + e)
+        t = self.stamp(sum(seg, Fr(0)) + e)
         out = impl.outcome(impl.dt_update, obj, t, {'x': self.value(len(seg))})
         return (out, impl.outcome(lambda: obj.sampling_violation_counter))
 
@@ -127,6 +138,10 @@ def shards(tier):
     for cfg in CONFIGS:
         for tol in TOLS:
             out.append({'cfg': list(cfg), 'tol': [tol.numerator, tol.denominator]})
+    # integer time-stamps of epoch-nanosecond magnitude (exact as ints; every gap of the alphabet is a whole number of ns)
+    for cfg in ((1600, 'ns', 'ns'), (16, 'us', 'ns')):
+        for tol in TOLS:
+            out.append({'cfg': list(cfg), 'tol': [tol.numerator, tol.denominator], 'base': EPOCH_NS})
     return out
 
 
@@ -134,12 +149,12 @@ def offline_check(res, mod, m, depth):
     """every gap sequence of length 1..depth as the time column of evaluate()"""
     for L in range(1, depth + 1):
         for hist in itertools.product(m.events, repeat=L):
-            ts = [float(sum(hist[:i + 1], Fr(0))) for i in range(L)]
+            ts = [m.stamp(sum(hist[:i + 1], Fr(0))) for i in range(L)]
             w = {'x': [m.value(i) for i in range(L)]}
             want = m.expected_count(hist)
             for combined in (False, True):
                 res.evaluations += 1
-                case = {'mode': 'offline', 'combined': combined, 'cfg': list(m.cfg), 'tol': [m.tol.numerator, m.tol.denominator],
+                case = {'mode': 'offline', 'combined': combined, 'cfg': list(m.cfg), 'tol': [m.tol.numerator, m.tol.denominator], 'base': m.base,
                         'gaps': [[g.numerator, g.denominator] for g in hist]}
                 msg = None
                 try:
@@ -177,7 +192,7 @@ def offline_repeat_check(res, mod, m, depth):
         for h2 in seqs:
             for combined in (False, True):
                 res.evaluations += 1
-                case = {'mode': 'offline_repeat', 'combined': combined, 'cfg': list(m.cfg), 'tol': [m.tol.numerator, m.tol.denominator],
+                case = {'mode': 'offline_repeat', 'combined': combined, 'cfg': list(m.cfg), 'tol': [m.tol.numerator, m.tol.denominator], 'base': m.base,
                         'gaps': [[g.numerator, g.denominator] for g in h1], 'gaps2': [[g.numerator, g.denominator] for g in h2]}
                 msg = offline_repeat_case(m, h1, h2, combined)
                 if msg:
@@ -193,7 +208,7 @@ def offline_repeat_case(m, h1, h2, combined):
     spec = m.fresh('dt_off', combined)
     for h in (h1, h2):
         L = len(h)
-        ts = [float(sum(h[:i + 1], Fr(0))) for i in range(L)]
+        ts = [m.stamp(sum(h[:i + 1], Fr(0))) for i in range(L)]
         w = {'x': [m.value(i) for i in range(L)]}
         kind, val = impl.outcome(impl.dt_evaluate, spec, w, ts)
         if kind != 'ok':
@@ -210,11 +225,11 @@ def run_shard(shard, tier, res):
     mod = sys.modules[__name__]
     cfg = tuple(shard['cfg'])
     tol = Fr(*shard['tol'])
-    m = JitterModel(cfg, tol)
+    m = JitterModel(cfg, tol, shard.get('base', 0))
     depth = 4 if tier == 'quick' else 6
 
     def on_violation(hist, msg):
-        case = {'mode': 'online', 'cfg': list(cfg), 'tol': shard['tol'], 'gaps': [('R' if g == 'R' else [g.numerator, g.denominator]) for g in hist]}
+        case = {'mode': 'online', 'cfg': list(cfg), 'tol': shard['tol'], 'base': m.base, 'gaps': [('R' if g == 'R' else [g.numerator, g.denominator]) for g in hist]}
         res.violation(mod, case, msg)
         res.outcomes['online: ' + msg.split(' is ')[0][:30]] += 1
     st = explore.bfs(m, depth, 10 ** 7, 'first', on_violation)
@@ -236,7 +251,7 @@ def run_shard(shard, tier, res):
 
 
 def replay(case):
-    m = JitterModel(tuple(case['cfg']), Fr(*case['tol']))
+    m = JitterModel(tuple(case['cfg']), Fr(*case['tol']), case.get('base', 0))
     hist = tuple(('R' if g == 'R' else Fr(*g)) for g in case['gaps'])
     if case['mode'] == 'online':
         obj = m.fresh()
@@ -251,7 +266,7 @@ def replay(case):
         msg = offline_repeat_case(m, hist, tuple(Fr(*g) for g in case['gaps2']), case['combined'])
         return [msg] if msg else []
     L = len(hist)
-    ts = [float(sum(hist[:i + 1], Fr(0))) for i in range(L)]
+    ts = [m.stamp(sum(hist[:i + 1], Fr(0))) for i in range(L)]
     w = {'x': [m.value(i) for i in range(L)]}
     spec = m.fresh('dt_off', case['combined'])
     kind, val = impl.outcome(impl.dt_evaluate, spec, w, ts)
